@@ -4,7 +4,7 @@ from __future__ import annotations
 import ast
 from fractions import Fraction
 
-from ..core import call_name, kwarg, norm
+from ..core import call_name, ctext, kwarg, norm
 from ..norm import Normaliser, single_defs
 from ..util import assigned_targets, const_num, parent_map
 
@@ -143,14 +143,19 @@ def _v4(ctx):
     seen = {}
     for st in g.stmts():
         for t, v, _ in assigned_targets(st):
-            if isinstance(t, ast.Name) and t.id == "valid" and isinstance(v, ast.Compare) and norm(v.left) == "result" and norm(v.comparators[0]).startswith("objective."):
-                which = norm(v.comparators[0]).split(".")[1]
+            if isinstance(t, ast.Name) and t.id == "valid" and isinstance(v, ast.Compare) and len(v.ops) == 1 and {norm(v.left), norm(v.comparators[0])} & {"result"} and \
+                    (norm(v.comparators[0]).startswith("objective.") or norm(v.left).startswith("objective.")):
+                res_left = norm(v.left) == "result"
+                bound_txt = norm(v.comparators[0]) if res_left else norm(v.left)
+                which = bound_txt.split(".")[1]
+                _flip = {ast.Lt: ast.Gt, ast.Gt: ast.Lt, ast.LtE: ast.GtE, ast.GtE: ast.LtE}
+                op_seen = type(v.ops[0]) if res_left else _flip[type(v.ops[0])]
                 conds = [(norm(h.ast.test), lab) for h, lab in gcfg.control_conditions(gcfg.node_of(st)) if h.kind == "if"]
                 inc = ("objective.inclusive", "true") in conds
                 exc = ("objective.inclusive", "false") in conds
                 if not (inc or exc):
                     continue
-                seen[(which, inc)] = (st, type(v.ops[0]))
+                seen[(which, inc)] = (st, op_seen)
     for key, op in want.items():
         if key not in seen:
             ctx.bad(R, g, g.node, f"no validity mask for {key[0]} with inclusive={key[1]}")
@@ -202,12 +207,12 @@ def _v6(ctx):
     keep = [s for s in fi.stmts() for t, v, _ in assigned_targets(s) if norm(t) == "choices_enumerated" and isinstance(v, ast.Subscript) and isinstance(v.slice, ast.Compare)]
     ctx.require(len(keep) == 1, R, "row filter")
     c = keep[0].value.slice
-    ok = norm(c.left) == "n" and norm(c.comparators[0]) == "limit" and isinstance(c.ops[0], (ast.LtE, ast.Lt))
+    ok = norm(c.left) == "n" and norm(c.comparators[0]) == "limit" and isinstance(c.ops[0], (ast.LtE, ast.Lt))  # canonical: the smaller side is on the left
     ctx.check(ok, R, fi, keep[0], f"rows are kept by `{norm(c)}`: tile shapes with more fused loops than the limit survive", f"kept iff {norm(c)}")
     emp = [s for s in fi.stmts() for t, v, _ in assigned_targets(s) if norm(t) == "choices_enumerated" and norm(v) in ("choices_enumerated[0:0, :]", "choices_enumerated[:0]", "choices_enumerated[0:0]")]
     ctx.require(len(emp) == 1, R, "scalar branch")
     conds = [(norm(h.ast.test), lab) for h, lab in cfg.control_conditions(cfg.node_of(emp[0])) if h.kind == "if"]
-    ok = any(t in ("n > limit", "n >= limit") and lab == "true" for t, lab in conds)
+    ok = any(t in (ctext("n > limit"), ctext("n >= limit")) and lab == "true" for t, lab in conds)
     ctx.check(ok, R, fi, emp[0], f"the table is emptied under {conds}, not whenever the scalar count exceeds the limit", "scalar count over the limit => no choices")
     acc = [s for s in fi.stmts() if isinstance(s, ast.AugAssign) and norm(s.target) == "n"]
     ok = len(acc) == 1 and isinstance(acc[0].op, ast.Add) and norm(acc[0].value) == "has_fanout(g)"
